@@ -540,7 +540,7 @@ theorem rtx_encTM (priv : List Name) (size : Nat) (kvs : List (Name × PyVal)) :
       refine ⟨v', ?_, h2, ?_, ?_⟩
       · rw [encodeTMembers]
         simp only [hpc, Bool.false_eq_true, if_false]
-        simp only [hg, he, bind, Except.bind, h1]
+        simp only [hg, argOf_of_fixedWidth t w v hw, he, bind, Except.bind, h1]
       · intro j hj
         rw [h3 j (fun m hm => hj m (by simp [TMembers.toList, hm])), rtx_splice_get _ _ _ hfit]
         have := hj (name, t, off) (by simp [TMembers.toList]) hp w hw
